@@ -42,7 +42,7 @@ type histCase struct {
 
 func cases(tier string, seed int64) []fw.Case {
 	var cs []fw.Case
-	nHist, blocks := 15, 300
+	nHist, blocks := 32, 300
 	nDirect, perDirect := 10, 10_000
 	if tier == "thorough" {
 		nHist, blocks = 200, 600
